@@ -253,4 +253,145 @@ theorem source_roundtrip_bytes (fuel : Nat) (hf : 11 ≤ fuel) (p : Bytes) (off 
   simp [decOf, hso]
   omega
 
+theorem map_toInt_inj64 : ∀ (a b : List (BitVec 64)), a.map (·.toInt) = b.map (·.toInt) → a = b
+  | [], [], _ => rfl
+  | [], _ :: _, h => by simp at h
+  | _ :: _, [], h => by simp at h
+  | x :: a, y :: b, h => by
+    simp only [List.map_cons, List.cons.injEq] at h
+    rw [BitVec.eq_of_toInt_eq h.1, map_toInt_inj64 a b h.2]
+
+/-- **C01 for the source, packed repeated sint64 fields (zig-zag)**: the bytes the source's `EncodePackedSInt64(tag, vs)` writes for a
+    non-empty list are read back by the source's `DecodeTag` + `DecodePackedSint64` as the same field number, wire type 2 and
+    the same list of int64 values (negative ones included), consuming exactly what was written. -/
+theorem source_roundtrip_packed_sint64 (fuel : Nat) (hf : 11 ≤ fuel) (p : Bytes) (off tag mode ks ke : BitVec 64) (vs : List (BitVec 64))
+    (hp : p.length < 2 ^ 62) (hfl : p.length + 2 ≤ fuel) (hoff : off.toNat ≤ p.length) (hvs : vs ≠ []) (hvl : vs.length < 2 ^ 59)
+    (ht1 : 1 ≤ tag.toNat) (ht : tag.toNat ≤ 536870911)
+    (se : Encoder_EncodePackedSInt64.St) (hret : Encoder_EncodePackedSInt64 fuel p off tag vs = .ret () se) :
+    ∃ sd, Decoder_DecodeTag fuel se.e_p off mode ks ke = .ret (tag, 2#64, .nil) sd ∧
+      ∃ sd2, Decoder_DecodePackedSint64 fuel sd.d_p sd.d_offset sd.d_mode sd.d_keyStart sd.d_keyEnd = .ret (vs, .nil) sd2 ∧
+        sd2.d_offset = se.e_offset := by
+  have htm : tag.toNat ≤ maxTagValue := ht
+  have hp63 : p.length < 2 ^ 63 := by omega
+  have hne : (vs.map (·.toInt)).isEmpty = false := by
+    cases vs with
+    | nil => exact absurd rfl hvs
+    | cons _ _ => rfl
+  obtain ⟨hfit, hbuf, hend⟩ := enc_returns (W := Encoder_EncodePackedSInt64 fuel p off tag vs) p off.toNat (.packedZigzag64 tag.toNat (vs.map (·.toInt)))
+    (·.e_p) (·.e_offset) (by simp [Enc.step, hne]) (EncodePackedSInt64_refines fuel (by omega) p off tag vs hp hoff hvl) se hret
+  simp only [EncOp.wire, hne, Bool.false_eq_true, if_false] at hfit hbuf hend
+  rw [sumSizes_flatten sizeOfZigZag encZigZag64 (fun i => (sizeOfZigZag_exact i).1)] at hfit hbuf hend
+  generalize hF : ((vs.map (·.toInt)).map encZigZag64).flatten = F at *
+  simp only [List.length_append] at hfit hend
+  simp only [List.append_assoc] at hbuf
+  have hlenw : (writeAt p off.toNat (encTag tag.toNat wtLen ++ (encVarint F.length ++ F))).length = p.length :=
+    writeAt_length (by simp only [List.length_append]; omega)
+  -- DecodeTag
+  have hat0 := decOf_at p off ks ke false (encTag tag.toNat wtLen ++ (encVarint F.length ++ F)) (by simp only [List.length_append]; omega)
+  have hat : (decOf (writeAt p off.toNat (encTag tag.toNat wtLen ++ (encVarint F.length ++ F))) off ks ke false).At (p.take off.toNat)
+      (encTag tag.toNat wtLen ++ (encVarint F.length ++ (F ++ p.drop (off.toNat + (encTag tag.toNat wtLen ++ (encVarint F.length ++ F)).length)))) := by
+    simpa only [List.append_assoc] using hat0
+  have htag := Dec.tag_at hat ht1 htm (by decide : wtLen < 8)
+  obtain ⟨t, w, e, sd, hdt, hdp, hdm, hmatch⟩ := DecodeTag_refines fuel hf se.e_p off mode ks ke false
+    (by rw [hbuf, hlenw]; exact hp63) (by rw [hbuf, hlenw]; exact hoff)
+  simp only [hbuf] at hmatch hdt hdp
+  rw [htag] at hmatch
+  simp only [Dec.afterTag_off, Dec.afterTag_ks, Dec.afterTag_ke] at hmatch
+  obtain ⟨he, htn, hwn, hso, hsks, hske⟩ := hmatch
+  subst he
+  have htq : tag = t := (bv_eq_of_toNat htn).symm
+  have hwq : (2#64 : BitVec 64) = w := (bv_eq_of_toNat (by rw [hwn]; rfl)).symm
+  subst htq; subst hwq
+  refine ⟨sd, by rw [hbuf]; exact hdt, ?_⟩
+  -- DecodePackedSint64
+  have hat2 := hat.afterTag
+  have hd2 : decOf sd.d_p sd.d_offset sd.d_keyStart sd.d_keyEnd false =
+      (decOf (writeAt p off.toNat (encTag tag.toNat wtLen ++ (encVarint F.length ++ F))) off ks ke false).afterTag (encTag tag.toNat wtLen).length := by
+    simp only [decOf, Dec.afterTag, hdp, hso, hsks, hske]
+  have hmem : ∀ i ∈ vs.map (·.toInt), InI64 i := by
+    intro i hi; simp only [List.mem_map] at hi; obtain ⟨x, _, rfl⟩ := hi; exact inI64_toInt x
+  obtain ⟨a, hpk⟩ := Dec.packed_at (d := decOf sd.d_p sd.d_offset sd.d_keyStart sd.d_keyEnd false) (pre := p.take off.toNat ++ encTag tag.toNat wtLen)
+    (post := p.drop (off.toNat + (encTag tag.toNat wtLen ++ (encVarint F.length ++ F)).length)) elSint64 encZigZag64 .ints (vs.map (·.toInt)) none
+    (fun i hi rest => elSint64_enc i (hmem i hi) rest) (fun i _ => by unfold encZigZag64; exact encVarint_length_pos _)
+    (by rw [hF]; unfold two64; omega) (by rw [hd2, hF]; simpa [List.append_assoc] using hat2)
+  obtain ⟨R, e2, sd2, hdu, _, _, _, _, hm2⟩ := DecodePackedSint64_refines fuel hf sd.d_p sd.d_offset sd.d_mode sd.d_keyStart sd.d_keyEnd false
+    (by rw [hdp, hlenw]; exact hp) (by rw [hdp, hlenw]; exact hfl) (by rw [hdp, hlenw, hso]; simp [decOf]; omega)
+  simp only [Dec.step, hpk] at hm2
+  obtain ⟨he2, hR, ho2⟩ := hm2
+  subst he2
+  have hRq : vs = R := (map_toInt_inj64 R vs hR).symm
+  subst hRq
+  refine ⟨sd2, hdu, bv_eq_of_toNat ?_⟩
+  rw [ho2, hend, hF]
+  simp [decOf, hso]
+  omega
+
+
+/-- **C01 for the source, packed repeated int64 fields (negative elements included)**: what the source's
+    `EncodePackedInt64(tag, vs)` writes — negative elements as ten bytes — is read back by the source's `DecodeTag` + `DecodePackedInt64` as the same list. -/
+theorem source_roundtrip_packed_int64 (fuel : Nat) (hf : 11 ≤ fuel) (p : Bytes) (off tag mode ks ke : BitVec 64) (vs : List (BitVec 64))
+    (hp : p.length < 2 ^ 62) (hfl : p.length + 2 ≤ fuel) (hoff : off.toNat ≤ p.length) (hvs : vs ≠ []) (hvl : vs.length < 2 ^ 59)
+    (ht1 : 1 ≤ tag.toNat) (ht : tag.toNat ≤ 536870911)
+    (se : Encoder_EncodePackedInt64.St) (hret : Encoder_EncodePackedInt64 fuel p off tag vs = .ret () se) :
+    ∃ sd, Decoder_DecodeTag fuel se.e_p off mode ks ke = .ret (tag, 2#64, .nil) sd ∧
+      ∃ sd2, Decoder_DecodePackedInt64 fuel sd.d_p sd.d_offset sd.d_mode sd.d_keyStart sd.d_keyEnd = .ret (vs, .nil) sd2 ∧
+        sd2.d_offset = se.e_offset := by
+  have htm : tag.toNat ≤ maxTagValue := ht
+  have hp63 : p.length < 2 ^ 63 := by omega
+  have hne : (vs.map (·.toNat)).isEmpty = false := by
+    cases vs with
+    | nil => exact absurd rfl hvs
+    | cons _ _ => rfl
+  obtain ⟨hfit, hbuf, hend⟩ := enc_returns (W := Encoder_EncodePackedInt64 fuel p off tag vs) p off.toNat
+    (.packedVarint tag.toNat (vs.map (·.toNat)))
+    (·.e_p) (·.e_offset) (by simp [Enc.step, hne]) (EncodePackedInt64_refines fuel (by omega) p off tag vs hp hoff hvl) se hret
+  simp only [EncOp.wire, hne, Bool.false_eq_true, if_false] at hfit hbuf hend
+  rw [sumSizes_flatten sizeOfVarint encVarint sizeOfVarint_eq_length] at hfit hbuf hend
+  have hmapeq : (vs.map (·.toNat)).map encVarint = (vs.map (·.toInt)).map (fun i => encVarint (toU64 i)) := by
+    simp only [List.map_map]; apply List.map_congr_left; intro v _; simp [toNat_eq_toU64]
+  rw [hmapeq] at hfit hbuf hend
+  generalize hF : ((vs.map (·.toInt)).map (fun i => encVarint (toU64 i))).flatten = F at *
+  simp only [List.length_append] at hfit hend
+  simp only [List.append_assoc] at hbuf
+  have hlenw : (writeAt p off.toNat (encTag tag.toNat wtLen ++ (encVarint F.length ++ F))).length = p.length :=
+    writeAt_length (by simp only [List.length_append]; omega)
+  have hat0 := decOf_at p off ks ke false (encTag tag.toNat wtLen ++ (encVarint F.length ++ F)) (by simp only [List.length_append]; omega)
+  have hat : (decOf (writeAt p off.toNat (encTag tag.toNat wtLen ++ (encVarint F.length ++ F))) off ks ke false).At (p.take off.toNat)
+      (encTag tag.toNat wtLen ++ (encVarint F.length ++ (F ++ p.drop (off.toNat + (encTag tag.toNat wtLen ++ (encVarint F.length ++ F)).length)))) := by
+    simpa only [List.append_assoc] using hat0
+  have htag := Dec.tag_at hat ht1 htm (by decide : wtLen < 8)
+  obtain ⟨t, w, e, sd, hdt, hdp, hdm, hmatch⟩ := DecodeTag_refines fuel hf se.e_p off mode ks ke false
+    (by rw [hbuf, hlenw]; exact hp63) (by rw [hbuf, hlenw]; exact hoff)
+  simp only [hbuf] at hmatch hdt hdp
+  rw [htag] at hmatch
+  simp only [Dec.afterTag_off, Dec.afterTag_ks, Dec.afterTag_ke] at hmatch
+  obtain ⟨he, htn, hwn, hso, hsks, hske⟩ := hmatch
+  subst he
+  have htq : tag = t := (bv_eq_of_toNat htn).symm
+  have hwq : (2#64 : BitVec 64) = w := (bv_eq_of_toNat (by rw [hwn]; rfl)).symm
+  subst htq; subst hwq
+  refine ⟨sd, by rw [hbuf]; exact hdt, ?_⟩
+  have hat2 := hat.afterTag
+  have hd2 : decOf sd.d_p sd.d_offset sd.d_keyStart sd.d_keyEnd false =
+      (decOf (writeAt p off.toNat (encTag tag.toNat wtLen ++ (encVarint F.length ++ F))) off ks ke false).afterTag (encTag tag.toNat wtLen).length := by
+    simp only [decOf, Dec.afterTag, hdp, hso, hsks, hske]
+  have hmem : ∀ i ∈ vs.map (·.toInt), InI64 i := by
+    intro i hi; simp only [List.mem_map] at hi; obtain ⟨x, _, rfl⟩ := hi; exact inI64_toInt x
+  obtain ⟨a, hpk⟩ := Dec.packed_at (d := decOf sd.d_p sd.d_offset sd.d_keyStart sd.d_keyEnd false) (pre := p.take off.toNat ++ encTag tag.toNat wtLen)
+    (post := p.drop (off.toNat + (encTag tag.toNat wtLen ++ (encVarint F.length ++ F)).length)) elInt64 (fun i => encVarint (toU64 i)) .ints (vs.map (·.toInt)) none
+    (fun i hi rest => elInt64_enc i (hmem i hi) rest) (fun i _ => encVarint_length_pos _)
+    (by rw [hF]; unfold two64; omega) (by rw [hd2, hF]; simpa [List.append_assoc] using hat2)
+  obtain ⟨R, e2, sd2, hdu, _, _, _, _, hm2⟩ := DecodePackedInt64_refines fuel hf sd.d_p sd.d_offset sd.d_mode sd.d_keyStart sd.d_keyEnd false
+    (by rw [hdp, hlenw]; exact hp) (by rw [hdp, hlenw]; exact hfl) (by rw [hdp, hlenw, hso]; simp [decOf]; omega)
+  simp only [Dec.step, hpk] at hm2
+  obtain ⟨he2, hR, ho2⟩ := hm2
+  subst he2
+  have hRq : vs = R := (map_toInt_inj64 R vs hR).symm
+  subst hRq
+  refine ⟨sd2, hdu, bv_eq_of_toNat ?_⟩
+  rw [ho2, hend, hF]
+  simp [decOf, hso]
+  omega
+
+
 end Csproto.C01.Source
